@@ -175,6 +175,7 @@ class World:
         os.chmod(self.fakecc, 0o755)
         self.procs = {}
         self.outputs_seen = set()
+        self.output_of = {}
 
     def env(self, tag, scripted=True):
         e = dict(os.environ)
@@ -229,6 +230,7 @@ class World:
         while time.time() - t0 < timeout:
             if os.path.exists(at):
                 self.outputs_seen.add(open(at).read())
+                self.output_of[p.tag] = open(at).read()
                 p.stage = k
                 return "stage"
             if p.popen.poll() is not None:
@@ -381,7 +383,8 @@ def run_schedule(root, idx, sched, nproc, kill_kind="sigkill", fork=False):
         results = {t: p.result for t, p in w.procs.items() if p.result is not None}
         return dict(sched=list(sched), model_sched=model_sched, trace=trace, loaded=obs_loaded, killed=killed, kill_kind=kill_kind, aborted=aborted,
                     after_kill=after_kill, recover_ok=bool(r.result and r.result["ok"]), recover=r.result,
-                    listing=listing, compiler_outputs=outputs, final_name=fname, results=results, forked_workers=fork)
+                    listing=listing, compiler_outputs=outputs, final_name=fname, results=results, forked_workers=fork,
+                    output_names={t: os.path.basename(v) for t, v in w.output_of.items()})
     finally:
         w.kill_all()
         shutil.rmtree(w.dir, ignore_errors=True)
@@ -468,6 +471,11 @@ def main(run):
                 run.add(Finding("C18:bad-load", "schedule %s: process %d did not obtain a working kernel (%s)" % (o["sched"], pid, o["results"].get("p%d" % pid)), desc))
         if not o["recover_ok"]:
             run.add(Finding("C18:no-recovery", "schedule %s with kills %s: the next load failed (%s)" % (o["sched"], o["killed"], o["recover"]), desc))
+        # hypothesis of C18_distinct_names_safe, checked on the real run: different builders compile to different names
+        outs_ = [v for t, v in sorted(o["output_names"].items()) if t != "pre"]
+        if len(set(outs_)) != len(outs_):
+            run.add(Finding("C18:temp-name-shared", "schedule %s%s: two builders were given the same temporary output name %s (C18_shared_name_refuted: the protocol is then unsafe)" % (
+                o["sched"], " with forked workers" if o["forked_workers"] else "", sorted(x for x in set(outs_) if outs_.count(x) > 1)), desc))
         if o["final_name"] in o["compiler_outputs"]:
             run.add(Finding("C18:compiles-in-place", "schedule %s: the compiler was told to write directly to the final cache name" % (o["sched"],), desc))
         if len(run.coverage["samples"]) < 5:
